@@ -1,6 +1,6 @@
 (** Property C28 — every returned solution is a well-formed answer for its query.
     Only the property theorems; models and proofs are in Infer/Answer.v and Infer/Canon.v. *)
-From Chalk Require Import Ir.Syntax Ir.Fold Infer.Canon Infer.Answer.
+From Chalk Require Import Ir.Syntax Ir.Fold Infer.Canon Infer.Answer Agg.Instance Agg.AntiUnify Infer.AnswerWf.
 
 (** An answer that passes the executable check [wf_answer] (one entry per query binder of the
     binder's kind, bound variables within the answer's own binders, universes below the query's
@@ -44,3 +44,65 @@ Proof. exact wf_answer_universes_lemma. Qed.
 Check wf_answer_universes : forall q a i p vk u, wf_answer q a = true ->
   nth_error (a_subst a) i = Some p -> nth_error (q_binders q) i = Some (vk, u) ->
   univ_le (map snd (a_binders a)) u 0 p = true.
+
+(** The recursive solver's answer ([Fulfill::solve]: the query substitution canonicalized through the
+    final inference table) is well-formed, for every table that satisfies the universe invariant of
+    unification ([relate_sound_universes]: the resolved binding of each query variable mentions only
+    variables and placeholders of universes it can see — C14's [relate_sound] universe clause),
+    has usize const types and uses every class at one kind. *)
+Theorem rec_answer_wf : forall fuel T q a,
+  (forall b, In b (q_binders q) -> snd b < q_universes q) ->
+  table_consts_usize T ->
+  relate_sound_universes fuel T (q_binders q) ->
+  (forall R, resolve fuel T 0 (Node HList (subst0 (q_binders q))) = Done R -> kinds_consistent (occs R)) ->
+  rec_answer fuel T q = Done a -> wf_answer q a = true.
+Proof. exact rec_answer_wf_lemma. Qed.
+Check rec_answer_wf : forall fuel T q a,
+  (forall b, In b (q_binders q) -> snd b < q_universes q) ->
+  table_consts_usize T ->
+  relate_sound_universes fuel T (q_binders q) ->
+  (forall R, resolve fuel T 0 (Node HList (subst0 (q_binders q))) = Done R -> kinds_consistent (occs R)) ->
+  rec_answer fuel T q = Done a -> wf_answer q a = true.
+
+(** [merge_into_guidance] maps well-formed guidance and a further answer of the query to well-formed
+    guidance: aggregate variables are fresh, bound by the aggregate and created in the universe of the
+    query unknown whose entry they occur in ... *)
+Theorem slg_merge_wf : forall q g ans g',
+  (forall b, In b (q_binders q) -> snd b < q_universes q) ->
+  wf_answer q g = true -> kinds_match (a_subst ans) (q_binders q) = true -> Forall ctys_ok (a_subst g) ->
+  merge (q_binders q) g ans = Ok g' -> wf_answer q g' = true.
+Proof. exact slg_merge_wf_lemma. Qed.
+Check slg_merge_wf : forall q g ans g',
+  (forall b, In b (q_binders q) -> snd b < q_universes q) ->
+  wf_answer q g = true -> kinds_match (a_subst ans) (q_binders q) = true -> Forall ctys_ok (a_subst g) ->
+  merge (q_binders q) g ans = Ok g' -> wf_answer q g' = true.
+
+(** ... so the whole aggregation loop of [make_solution] preserves well-formedness ... *)
+Theorem slg_answer_wf : forall q rest g g',
+  (forall b, In b (q_binders q) -> snd b < q_universes q) ->
+  wf_answer q g = true -> Forall ctys_ok (a_subst g) ->
+  Forall (fun x => kinds_match (a_subst x) (q_binders q) = true) rest ->
+  merge_all (q_binders q) g rest = Ok g' -> wf_answer q g' = true.
+Proof. exact slg_answer_wf_lemma. Qed.
+Check slg_answer_wf : forall q rest g g',
+  (forall b, In b (q_binders q) -> snd b < q_universes q) ->
+  wf_answer q g = true -> Forall ctys_ok (a_subst g) ->
+  Forall (fun x => kinds_match (a_subst x) (q_binders q) = true) rest ->
+  merge_all (q_binders q) g rest = Ok g' -> wf_answer q g' = true.
+
+(** ... and the SLG solution (first root answer = canonicalized query substitution, then merges) is well-formed. *)
+Theorem slg_solution_wf : forall fuel T q g rest g',
+  (forall b, In b (q_binders q) -> snd b < q_universes q) ->
+  table_consts_usize T -> relate_sound_universes fuel T (q_binders q) ->
+  (forall R, resolve fuel T 0 (Node HList (subst0 (q_binders q))) = Done R -> kinds_consistent (occs R)) ->
+  rec_answer fuel T q = Done g -> Forall ctys_ok (a_subst g) ->
+  Forall (fun x => kinds_match (a_subst x) (q_binders q) = true) rest ->
+  merge_all (q_binders q) g rest = Ok g' -> wf_answer q g' = true.
+Proof. exact slg_solution_wf_lemma. Qed.
+Check slg_solution_wf : forall fuel T q g rest g',
+  (forall b, In b (q_binders q) -> snd b < q_universes q) ->
+  table_consts_usize T -> relate_sound_universes fuel T (q_binders q) ->
+  (forall R, resolve fuel T 0 (Node HList (subst0 (q_binders q))) = Done R -> kinds_consistent (occs R)) ->
+  rec_answer fuel T q = Done g -> Forall ctys_ok (a_subst g) ->
+  Forall (fun x => kinds_match (a_subst x) (q_binders q) = true) rest ->
+  merge_all (q_binders q) g rest = Ok g' -> wf_answer q g' = true.
